@@ -681,3 +681,19 @@ Theorem influx_request_with_unknown_precision_is_refused :
   influx_request fp enc_len CS cache_add cache0 threshold flush_limit h q ck lines = Refused400.
 Proof. exact influx_request_refused_l. Qed.
 Print Assumptions influx_request_with_unknown_precision_is_refused.
+
+(* the Cloudflare-Datadog route (PushCfDatadogV2): whatever the ddsource parameter says (absent, empty, any text), under a
+   header written from n the lines are answered with one faithful row per line under TTL n, and every line's stream carries
+   the label ddsource in front with a value that is never empty: the parameter's own text, or "unknown" when it is absent or
+   empty - so lines pushed under different ddsource values are never stored under one stream *)
+Theorem cloudflare_request_with_options_is_faithful :
+  forall fp enc_len CS cache_add cache0 threshold flush_limit ds (q : string) (ck : clock) (lines : list cfline),
+  ds <> [] -> all_digits ds = true -> digits_value ds <= 65535 ->
+  let src := ddsource_of_query q in
+  exists cs, cf_request fp enc_len CS cache_add cache0 threshold flush_limit (digits_text ds) q ck lines = Done cs /\
+             Forall chunk_rect cs /\
+             rows_of cs = rows_spec fp (Z.to_N (digits_value ds)) (entries_cf src ck lines) /\
+             Forall (fun e => exists rest, e_labels e = ("ddsource"%string, src) :: rest) (entries_cf src ck lines) /\
+             src <> EmptyString /\ (q <> EmptyString -> src = q).
+Proof. exact cf_request_faithful_l. Qed.
+Print Assumptions cloudflare_request_with_options_is_faithful.
